@@ -25,6 +25,9 @@ type Config struct {
 	// SplitModel: models are generated into a package of their own (model/models_gen.go, package
 	// model - the layout of gqlgen's own init template) instead of the exec package
 	SplitModel bool `json:"split_model,omitempty"`
+	// Federation: a federation section (version 2, federation.go in the exec package) with these
+	// options (explicit_requires, ...); nil = no federation
+	Federation []string `json:"federation,omitempty"`
 }
 
 var BoolOptions = []string{
@@ -83,6 +86,15 @@ func (c Config) YAML() string {
 		fmt.Fprintf(&sb, "resolver:\n  filename: resolver.go\n  package: %s\n  type: Resolver\n", c.Package)
 	case "follow-schema":
 		fmt.Fprintf(&sb, "resolver:\n  layout: follow-schema\n  dir: .\n  package: %s\n  type: Resolver\n  filename_template: \"{name}.resolvers.go\"\n", c.Package)
+	}
+	if c.Federation != nil {
+		fmt.Fprintf(&sb, "federation:\n  filename: federation.go\n  package: %s\n  version: 2\n", c.Package)
+		if len(c.Federation) > 0 {
+			sb.WriteString("  options:\n")
+			for _, o := range c.Federation {
+				fmt.Fprintf(&sb, "    %s: true\n", o)
+			}
+		}
 	}
 	var keys []string
 	for k := range c.Bools {
